@@ -24,7 +24,7 @@ pub struct Format;
 
 const SURF: &[&str] = &["a", "京都", "EOS", "é", "x y", "\u{1F600}", "東", "EOS2", " ", "1,2", "\"q\"", "\u{3000}"];
 const FEAT: &[&str] = &["", "N", "名詞,固有名詞", "*", "a b", "x,\"y,z\"", "EOS", "0/1", " "];
-const BAD: &[&str] = &["a\tb\tc", "no-tab-line", "EOS\tx\ty", "\t\t", "EOSX", " EOS", "EOS "];
+const BAD: &[&str] = &["a\tb\tc", "no-tab-line", "EOS\tx\ty", "\t\t", "EOSX", " EOS", "EOS ", "<INVALID-UTF8>\tx", "a\t<INVALID-UTF8>"];
 
 pub fn render_corpus(sentences: &[Vec<(String, String)>], final_newline: bool) -> String {
     let mut s = String::new();
@@ -41,8 +41,25 @@ pub fn render_corpus(sentences: &[Vec<(String, String)>], final_newline: bool) -
 }
 
 fn parse(text: &str) -> Result<Result<Vec<Vec<(String, String)>>, String>, String> {
+    // the marker stands for a byte sequence that is not valid UTF-8 (a corpus in another encoding)
+    let bytes: Vec<u8> = {
+        let m = "<INVALID-UTF8>".as_bytes();
+        let t = text.as_bytes();
+        let mut out = vec![];
+        let mut i = 0;
+        while i < t.len() {
+            if t[i..].starts_with(m) {
+                out.extend_from_slice(&[0x93, 0xFA, 0xFF]);
+                i += m.len();
+            } else {
+                out.push(t[i]);
+                i += 1;
+            }
+        }
+        out
+    };
     guard(|| {
-        Corpus::from_reader(text.as_bytes())
+        Corpus::from_reader(&bytes[..])
             .map(|c| {
                 c.iter()
                     .map(|e| e.tokens().iter().map(|w| (w.surface().to_string(), w.feature().to_string())).collect())
@@ -92,7 +109,7 @@ impl Sub for Format {
     }
     fn rule(&self) -> String {
         "logical corpora of 0-6 sentences × 0-6 (surface, feature) words incl. the surface 'EOS' with a feature, empty features, quoted/comma features, multi-byte text, sentences with no words, with/without final newline; \
-         optionally one malformed line (two tabs, no tab, 'EOS' with extra columns, near-miss EOS); oracle: parse(render(C)) = C minus empty sentences; writing every example reproduces the canonical rendering byte for byte; \
+         optionally one malformed line (two tabs, no tab, 'EOS' with extra columns, near-miss EOS, a line that is not valid UTF-8); oracle: parse(render(C)) = C minus empty sentences; writing every example reproduces the canonical rendering byte for byte; \
          parse(write(parse(x))) = parse(x); malformed ⇒ Err; non-trivial = ≥2 sentences, a dropped empty sentence or a surface equal to EOS; distinct = hash(text)".into()
     }
     fn check(&self, case: &CorpusCase, ctx: &mut Ctx) -> Result<(), String> {
@@ -240,8 +257,8 @@ pub fn run(opts: &Opts) -> Report {
     let b = TokenizerOutput;
     crate::props::committed_replays(&a, opts, &mut rep);
     crate::props::committed_replays(&b, opts, &mut rep);
-    run_sub(&a, opts, opts.tier.pick(20_000, 400_000), &mut rep);
-    run_sub(&b, opts, opts.tier.pick(4000, 80_000), &mut rep);
+    run_sub(&a, opts, opts.tier.pick(40_000, 600_000), &mut rep);
+    run_sub(&b, opts, opts.tier.pick(8000, 120_000), &mut rep);
     crate::props::cli::c19(opts, &mut rep, opts.tier.pick(40, 600));
     rep
 }
